@@ -1,4 +1,5 @@
 PROP = dict(
+    code3_is_violation=True,
     properties="Properties/C04.v",
     harness_mods=["Harness/C04.v"],
     runs=[dict(cmd="c04", quick=900, thorough=30000)],
